@@ -3,7 +3,7 @@ HOOK_COMMITS = ['621a573']
 ENGINES = [
     dict(name='verus-extract', path='/verif/vlib', serves_properties=['C04', 'C05', 'C06', 'C08', 'C12', 'C14', 'C15', 'C17', 'C20'],
          kind_free_text='Verus 0.2026.09.13 on functions extracted mechanically from /repo on every run, contracts injected from /verif/units/<unit>/unit.rs'),
-    dict(name='kani-contracts', path='/verif/kani', serves_properties=['C01', 'C02', 'C03', 'C06', 'C15', 'C17', 'C20'],
+    dict(name='kani-contracts', path='/verif/kani', serves_properties=['C01', 'C02', 'C03', 'C06', 'C11', 'C15', 'C17', 'C19', 'C20'],
          kind_free_text='Kani 0.68 function contracts (proof_for_contract) and loop-free full-domain harnesses on the real crates of /repo (path dependencies), CBMC 6.11'),
 ]
 NOTES = ('Contract-based deductive verification. exit 0 = all obligations discharged; exit 1 = VIOLATION; '
@@ -13,6 +13,18 @@ NOT_APPLICABLE = {
     'C13': 'bus state is BTreeMap+VecDeque behind Rc<RefCell> driven by std iterator closures: no Verus model, Kani measured >10 min for 2 outputs x 2 ops (DESIGN.md §7)',
 }
 CHECKS = {
+    'C11': dict(
+        engine='kani-contracts', category='proof',
+        technique='Kani bit-precise full-domain harnesses on the no_std build of dasp_sample (exact mantissa/exponent comparison); Verus unit rms where built',
+        text='PARTIAL: decides the no_std square-root clause of C11: for every finite normal x >= 0 the approximation reached through FloatSample::sample_sqrt (dasp_sample built with default-features = false) satisfies 0.93^2 x <= r^2 <= 1.07^2 x, for f32 and f64, is at most 1e-18 for zero and subnormal input and NaN for negative input. The running-sum invariant of the windowed RMS is decided only if the Verus unit rms is present (see evidence).',
+        note='Not claimed: rigorous float error bound of the running sum, NaN-freedom in float arithmetic. -0.0 excluded (unreachable from a mean of squares).',
+    ),
+    'C19': dict(
+        engine='kani-contracts', category='proof',
+        technique='Kani full-domain harnesses per sample format for the rectifiers; (Verus unit envelope where built)',
+        text='PARTIAL: decides the rectifier clause of C19: for all 14 formats and every sample whose negated signed amplitude is representable, full_wave yields |signed amplitude| about equilibrium, positive/negative half-wave yield the sample limited to the upper/lower side of equilibrium, per channel, also through the FullWave/PositiveHalfWave/NegativeHalfWave Rectifier types. The one-pole envelope clauses are decided only if the Verus unit envelope is present (see evidence).',
+        note='Envelope follower update (gain selection, no overshoot) not decided unless unit envelope is listed in the evidence.',
+    ),
     'C17': dict(
         engine='verus-extract', category='proof',
         technique='Verus over idealised reals (Step/Phase/Sine/Saw/Square contracts, congruence lemma) + Kani bit-precise full-domain harnesses (noise for every seed; phase wrap, saw, square from every phase state via a guarded hook)',
